@@ -41,6 +41,28 @@ def oracle(text):
     return None
 
 
+class _StrSub(str):
+    """an instance of a subclass of str is a Python str (Django SafeString, numpy.str_, a str-valued Enum member)"""
+
+
+def oracle_subclass(text):
+    """the same text handed over as an instance of a str subclass lexes like the plain str"""
+    from sqlparse import lexer
+    try:
+        want = list(lexer.tokenize(text))
+    except Exception:  # noqa
+        return None            # reported by oracle()
+    try:
+        got = list(lexer.tokenize(_StrSub(text)))
+    except Exception as e:  # noqa
+        return {'input': [ord(c) for c in text], 'form': 'str-subclass',
+                'observed': 'str subclass instance: exception ' + type(e).__name__ + ': ' + str(e)[:200]}
+    if got != want:
+        return {'input': [ord(c) for c in text], 'form': 'str-subclass',
+                'observed': 'str subclass instance: tokens differ from those of the plain str'}
+    return None
+
+
 def gen_texts(ctx, n):
     out = []
     dist = collections.Counter()
@@ -62,6 +84,7 @@ def run(ctx):
     # stage lex
     replies = vlib.run_model(['lex ' + vlib.cps(s) for s in texts])
     shapes = set()
+    nsub = 0
     for s, r in zip(texts, replies):
         mine = impl.lex_dump(s)
         if mine != r:
@@ -71,6 +94,12 @@ def run(ctx):
         if f:
             f['stage'] = 'oracle'
             res['failures'].append(f)
+        if nsub < 300:
+            nsub += 1
+            f = oracle_subclass(s)
+            if f:
+                f['stage'] = 'oracle'
+                res['failures'].append(f)
         if mine.startswith('OK '):
             types = tuple(t.split(':')[0] for t in mine[3:].split('|')) if len(mine) > 3 else ()
             if len(set(types)) >= 2:
@@ -175,6 +204,13 @@ def search(ctx, hints):
             f = oracle(s)
             if f:
                 fails.append(f)
+    if not fails:
+        for s in ('select 1', 'a', ''):
+            tried += 1
+            f = oracle_subclass(s)
+            if f:
+                fails.append(f)
+                break
     if fails:
         fails = [shrink(fails[0])]
     return {'failures': fails, 'tried': tried}
@@ -185,6 +221,7 @@ def shrink(f):
         return f
     s = ''.join(map(chr, f['input']))
     best = f
+    orc = oracle_subclass if f.get('form') == 'str-subclass' else oracle
     changed = True
     while changed and len(s) > 1:
         changed = False
@@ -194,7 +231,7 @@ def shrink(f):
             i = 0
             while i < len(s):
                 t = s[:i] + s[i + k:]
-                g = oracle(t) if t else None
+                g = orc(t) if t else None
                 if g:
                     s, best, changed = t, g, True
                 else:
@@ -211,5 +248,6 @@ def replay(payload):
         if lc:
             g = common.long_lex_failure(*lc)
             return {'fails': bool(g), 'observed': g}
-    g = oracle(''.join(map(chr, f['input'])))
+    orc = oracle_subclass if f.get('form') == 'str-subclass' else oracle
+    g = orc(''.join(map(chr, f['input'])))
     return {'fails': bool(g), 'observed': g}
